@@ -46,6 +46,11 @@ def oracle(ctx, case, res, real):
         return
     if case["paired"] or not simple(argv) or not any(t in argv for t in ("-a", "-g", "-b")):
         return
+    if "--no-index" not in argv:
+        # the property's rule is stated for searches in which no index is involved (with an index, ties and the adapter order are the
+        # index's business: C08); such runs are still compared with the model
+        ctx.count("index-may-be-involved:rule-not-applied")
+        return
     action = argv[argv.index("--action") + 1] if "--action" in argv else "trim"
     if action not in ("trim", "none", "mask"):
         return
